@@ -460,9 +460,21 @@ def run(tier="quick", replay=None):
             comb = c.rsplit("::", 1)[-1]
             gfl = gfl or Flow(g)
             rl = op_local(t["args"][0])
-            prods = sorted({(callee_of(tt) or "?").rsplit("::", 1)[-1] for x in (gfl.back_pure([rl]) if rl is not None else ())
-                            for _, tt in gfl.call_defs.get(x, []) if (tt.get("target_local") or tt.get("callee_local"))
-                            and not (callee_of(tt) or "").startswith("std::") and "CompileErr" in g.local_ty(tt["dest"]["l"])})
+            prod_paths = sorted({(callee_of(tt) or "?") for x in (gfl.back_pure([rl]) if rl is not None else ())
+                                 for _, tt in gfl.call_defs.get(x, []) if (tt.get("target_local") or tt.get("callee_local"))
+                                 and not (callee_of(tt) or "").startswith("std::") and "CompileErr" in g.local_ty(tt["dest"]["l"])})
+            # only results of the steps that PRODUCE code can carry a rejection (code generation, front end, preprocessing,
+            # renaming, inlining); look-ups and probes (get_callable, dequote, ..) fail for reasons that are not rejections,
+            # and whether they are consumed by `.ok()` or by `if let Ok(..)` is a matter of style
+            REJECTING = ("compiler::codegen::", "compiler::frontend::", "compiler::compiler::compile", "compiler::preprocessor::",
+                         "compiler::rename::", "compiler::inline::", "compiler::lambda::", "compiler::optimize::deinline::",
+                         "compiler::compiler::DefaultCompilerOpts")
+            PROBES = ("get_callable", "dequote", "lookup_", "is_", "first_of_alist", "get_inline_callable")
+            prod_paths = [c for c in prod_paths if any(c.startswith(m) or ("<" + m) in c for m in REJECTING)
+                          and not any(c.rsplit("::", 1)[-1].startswith(pb) for pb in PROBES)]
+            if not prod_paths and not (at.count("CompileErr") >= 2 and comb == "unwrap_or_else"):
+                continue
+            prods = sorted({c.rsplit("::", 1)[-1] for c in prod_paths})
             # flattening of Result<Result<T, E>, E>: the error is re-wrapped by the closure, not dropped
             flatten = at.count("CompileErr") >= 2 and comb == "unwrap_or_else"
             base = "R10.e|%s|%s|%s" % (g.root, comb, ",".join(prods) or "?")
@@ -478,6 +490,46 @@ def run(tier="quick", replay=None):
                        "%s discards the error of %s with %s(): a compile error (unbound name, recursive inline, redefinition ...) raised "
                        "there no longer rejects the program" % (g.path, "/".join(prods) or "a fallible step", comb), fn=g.path)
     R.counts["R10.e error-discarding combinators on CompileErr results"] = nsw
+    # the same discard written as a pattern: the Result of a code-producing step is matched and its Err arm carries on
+    # without returning an error (`if let Ok(c) = codegen(..) { .. } else { fallback }`)
+    REJ = ("compiler::codegen::", "compiler::frontend::", "compiler::compiler::compile", "compiler::preprocessor::",
+           "compiler::rename::", "compiler::inline::", "compiler::lambda::", "compiler::optimize::deinline::")
+    PRB = ("get_callable", "dequote", "lookup_", "is_", "first_of_alist", "get_inline_callable")
+    npat = 0
+    for g in sorted(prog.fns.values(), key=lambda g: g.path):
+        if not g.path.startswith("compiler::") or g.path.startswith("compiler::repl"):
+            continue
+        errb = None
+        for bb, t in g.calls():
+            c = callee_of(t) or ""
+            if not any(c.startswith(m) for m in REJ) or any(c.rsplit("::", 1)[-1].startswith(pb) for pb in PRB):
+                continue
+            if "CompileErr" not in g.local_ty(t["dest"]["l"]) or not g.local_ty(t["dest"]["l"]).startswith("std::result::Result"):
+                continue
+            fr = follow_result(g, bb)
+            if fr is None or fr.get("via_try"):
+                continue
+            npat += 1
+            if errb is None:
+                errb = set(err_assign_blocks(g))
+            fail_region = g.reachable_from_set(fr["failure"]) - g.reachable_from_set(fr["success"])   # the Err arm proper
+            uses_err = False
+            tl = fr.get("tested_local")
+            for b2 in fail_region:
+                for st in g.blocks[b2]["s"]:
+                    for o in rv_operands(st["rv"]):
+                        pp = op_place(o)
+                        if pp and pp["l"] == tl and any(isinstance(e, dict) and e.get("dc") == "Err" for e in pp["p"]):
+                            uses_err = True
+            key = "R10.e|%s|match|%s" % (g.root, c.rsplit("::", 1)[-1])
+            if key in tbl and not (bool(fail_region & errb) or uses_err):
+                R.ob("R10.e", key, g.loc(bb), "table: %s — %s" % (tbl[key]["class"], tbl[key]["reason"]), fn=g.path)
+                continue
+            R.check(bool(fail_region & errb) or uses_err, "R10.e", key, g.loc(bb),
+                    "auto: the Err arm returns an error or passes the error value on",
+                    "%s matches the result of %s and carries on in the Err arm without using the error: a compile error raised there no "
+                    "longer rejects the program" % (g.path, c), fn=g.path)
+    R.counts["R10.e matched results of code-producing steps"] = npat
     return R.finalize()
 
 
